@@ -261,7 +261,7 @@ func actCoq(a act) string {
 	case a.K == "skipafter":
 		return "ISkipAfter " + a.Arg
 	}
-	return "IInert"
+	return "II"
 }
 
 func actsCoq(l []act) string {
@@ -304,8 +304,17 @@ func (r rawRule) coq() string {
 	if r.Chain != "" {
 		ch = "(Some " + condCoq(r.Chain) + ")"
 	}
-	// id, phase and nolog are the first three (inert) elements of the list parseActions sees
-	return fmt.Sprintf("R %d %d %s %s (IInert :: IInert :: IInert :: %s)", r.ID, r.Phase, condCoq(r.Cond), ch, actsCoq(r.items()))
+	// id, phase and nolog (the first three, inert, elements of the list parseActions sees) are added by R
+	it := r.items()
+	if r.Cond == "true" && r.Chain == "" && len(it) == 2 {
+		if it[0].K == "setvar" && it[1].K == "pass" {
+			return fmt.Sprintf("Ca %d %d", r.ID, r.Phase)
+		}
+		if it[0].K == "pass" && it[1].K == "setvar" {
+			return fmt.Sprintf("Cb %d %d", r.ID, r.Phase)
+		}
+	}
+	return fmt.Sprintf("R %d %d %s %s %s", r.ID, r.Phase, condCoq(r.Cond), ch, actsCoq(it))
 }
 
 func onoff(b bool) string {
@@ -1282,8 +1291,10 @@ func Run(cfg vh.Config) (*vh.Result, error) {
 							cond = condNames[2+(vi+phase)%4]
 						}
 						w := positional(eng, phase, pos, v, cond, defs, 0, "")
-						if err := add(w, canonical, "positional"); err != nil {
-							return nil, err
+						if cfg.Thorough() || (vi+phase+pos+ei)%2 == 0 {
+							if err := add(w, canonical, "positional"); err != nil {
+								return nil, err
+							}
 						}
 						for k := 0; k < cfg.Pick(1, 6); k++ {
 							if err := add(w, perturbed(rng, syms), "positional"); err != nil {
@@ -1374,12 +1385,14 @@ func Run(cfg vh.Config) (*vh.Result, error) {
 		}
 		// (3) exhaustive call sequences over ten-symbol alphabets: every sequence of exactly L calls
 		//     (each shorter sequence is a prefix of one of them and is compared call by call)
-		type exPlan struct{ n, length int }
-		plans := []exPlan{{4, 3}, {1, 4}}
+		//     quick: 2 x 10^3 (L=3, ten symbols) + 8^4 (L=4 over the first eight symbols of an alphabet,
+		//     hand-made rich configuration); thorough: 3 x 10^4 + 10^5
+		type exPlan struct{ n, length, width int }
+		plans := []exPlan{{2, 3, 10}, {1, 4, 8}}
 		if cfg.Thorough() {
-			plans = []exPlan{{3, 4}, {1, 5}}
+			plans = []exPlan{{3, 4, 10}, {1, 5, 10}}
 		}
-		t := int(cfg.Seed % 3)
+		t := int(cfg.Seed%3) + 1
 		for _, pl := range plans {
 			for k := 0; k < pl.n; k++ {
 				var w wafCfg
@@ -1389,14 +1402,17 @@ func Run(cfg vh.Config) (*vh.Result, error) {
 						break
 					}
 				}
-				if t%3 == 0 { // a hand-made rich template: allow:request in 1, deny late in phase 2, ctl in 3
+				if t%3 == 0 || (pl.length >= 4 && pl.n == 1) { // a hand-made rich template: allow:request in 1, deny late in phase 2, ctl in 3
 					w = positional(engines[(t/3)%2], 2, 2, variants[1], "uri", nil, 3, "DetectionOnly")
 					w.Rules[0] = rawRule{ID: 10, Phase: 1, Cond: "reqhdr", Dacts: []dact{{K: "allow", Arg: "request"}}, Status: -1}
 					if (t/3)%2 == 1 {
 						w.Rules[1] = rawRule{ID: 11, Phase: 1, Cond: "uri", Dacts: []dact{{K: "drop"}}, Status: 503}
 					}
 				}
-				alpha := alphabets[t%len(alphabets)]
+				alpha := alphabets[t%len(alphabets)][:pl.width]
+				if pl.width == 8 { // the data calls the rich configuration's conditions look at, one over-limit write
+					alpha = []call{{K: "prh"}, {K: "prb"}, {K: "presph"}, {K: "prespb"}, {K: "log"}, {K: "uri"}, {K: "reqhdr"}, {K: "wreq", N: 9}}
+				}
 				t++
 				var rec func(prefix []call) error
 				rec = func(prefix []call) error {
@@ -1413,12 +1429,12 @@ func Run(cfg vh.Config) (*vh.Result, error) {
 				if err := rec(nil); err != nil {
 					return nil, err
 				}
-				res.Notes = append(res.Notes, fmt.Sprintf("exhaustive: all 10^%d sequences of %d calls over alphabet %d for one configuration (engine %s)", pl.length, pl.length, (t-1)%len(alphabets), w.Engine))
+				res.Notes = append(res.Notes, fmt.Sprintf("exhaustive: all %d^%d sequences of %d calls over alphabet %d for one configuration (engine %s)", pl.width, pl.length, pl.length, (t-1)%len(alphabets), w.Engine))
 			}
 		}
 		res.Exhaustive = false
 		// (4) random configurations x random / perturbed sequences
-		for i := 0; i < cfg.Pick(1500, 15000); i++ {
+		for i := 0; i < cfg.Pick(1000, 15000); i++ {
 			w := randomCfg(rng)
 			var s []call
 			if rng.Intn(2) == 0 {
